@@ -70,6 +70,10 @@ type Ctx struct {
 	defIndex   map[string]int
 	NoSlice    bool
 	defMemo    map[string]string
+	defNames   map[string]bool
+	atomMemo   map[string]string
+	symSorts   map[string]Sort
+	symScanned int
 	heapAlloc  map[string]Term
 	alloc0     Term
 	genAlloc   map[int]Term
@@ -144,7 +148,250 @@ func (c *Ctx) define(prefix string, t Term) Term {
 	name := c.freshName(prefix)
 	c.emit(fmt.Sprintf("(define-fun %s () %s %s)", name, t.Sort, t.S))
 	c.defMemo[t.S] = name
+	if c.defNames == nil {
+		c.defNames = map[string]bool{}
+	}
+	c.defNames[name] = true
 	return Term{name, t.Sort}
+}
+
+var plainSymRe = regexp.MustCompile(`^-?[A-Za-z0-9_][A-Za-z0-9_.!$#@]*$`)
+
+// atomFor returns a declared constant equal to the ground term t (t itself when
+// it already is a literal or a declared constant). Terms that mention a bound
+// variable are returned unchanged.
+func (c *Ctx) atomFor(t Term) Term {
+	for _, q := range c.quantVars {
+		if strings.Contains(t.S, q) {
+			return t
+		}
+	}
+	if _, isReach := c.reachNodes[t.S]; plainSymRe.MatchString(t.S) && !c.defNames[t.S] && !isReach {
+		return t
+	}
+	if n, ok := c.atomMemo[t.S]; ok {
+		return Term{n, t.Sort}
+	}
+	name := c.freshName("pc")
+	c.emit(fmt.Sprintf("(declare-const %s %s)", name, t.Sort))
+	c.emit("(assert (= " + name + " " + t.S + "))")
+	if c.atomMemo == nil {
+		c.atomMemo = map[string]string{}
+	}
+	c.atomMemo[t.S] = name
+	return Term{name, t.Sort}
+}
+
+var boundVarRe = regexp.MustCompile(`^(qv|fr)![0-9]+$`)
+
+// cleanPattern rewrites a trigger term so that it contains no define-fun
+// macro (solvers expand macros inside patterns and reject the boolean
+// connectives they bring): every maximal ground subterm that mentions a macro
+// name is replaced by a declared constant equal to it.
+func (c *Ctx) cleanPattern(t Term) Term {
+	type node struct {
+		text  string
+		kids  []*node
+		bound bool // mentions a bound variable
+		macro bool // mentions a macro name
+	}
+	src := t.S
+	pos := 0
+	var parse func() *node
+	parse = func() *node {
+		for pos < len(src) && (src[pos] == ' ' || src[pos] == '\n') {
+			pos++
+		}
+		if pos < len(src) && src[pos] == '(' {
+			start := pos
+			pos++
+			n := &node{}
+			for {
+				for pos < len(src) && (src[pos] == ' ' || src[pos] == '\n') {
+					pos++
+				}
+				if pos >= len(src) {
+					break
+				}
+				if src[pos] == ')' {
+					pos++
+					break
+				}
+				k := parse()
+				n.kids = append(n.kids, k)
+				n.bound = n.bound || k.bound
+				n.macro = n.macro || k.macro
+			}
+			n.text = src[start:pos]
+			return n
+		}
+		start := pos
+		for pos < len(src) && src[pos] != ' ' && src[pos] != '(' && src[pos] != ')' && src[pos] != '\n' {
+			pos++
+		}
+		a := src[start:pos]
+		_, isReach := c.reachNodes[a]
+		return &node{text: a, bound: boundVarRe.MatchString(a), macro: c.defNames[a] || isReach || strings.HasPrefix(a, "sreach!")}
+	}
+	root := parse()
+	if !root.macro {
+		return t
+	}
+	var render func(n *node) string
+	render = func(n *node) string {
+		if !n.macro {
+			return n.text
+		}
+		if !n.bound {
+			if so, ok := c.sortOfGround(n.text); ok {
+				return c.atomFor(Term{n.text, so}).S
+			}
+			return n.text
+		}
+		parts := make([]string, len(n.kids))
+		for i, k := range n.kids {
+			parts[i] = render(k)
+		}
+		return "(" + strings.Join(parts, " ") + ")"
+	}
+	return Term{render(root), t.Sort}
+}
+
+var declRe = regexp.MustCompile(`^\((declare-const|define-fun|declare-fun) ([^ ]+) `)
+
+// symSort returns the (result) sort of a declared or defined symbol.
+func (c *Ctx) symSort(name string) (Sort, bool) {
+	if c.symSorts == nil {
+		c.symSorts = map[string]Sort{}
+	}
+	for ; c.symScanned < len(c.prelude); c.symScanned++ {
+		l := c.prelude[c.symScanned]
+		m := declRe.FindStringSubmatch(l)
+		if m == nil {
+			continue
+		}
+		rest := l[len(m[0]):]
+		switch m[1] {
+		case "declare-const":
+			c.symSorts[m[2]] = Sort(strings.TrimSuffix(strings.TrimSpace(stripComment(rest)), ")"))
+		default:
+			// skip the parameter list, then read one sort s-expression
+			d, i := 0, 0
+			for i < len(rest) {
+				if rest[i] == '(' {
+					d++
+				} else if rest[i] == ')' {
+					d--
+					if d == 0 {
+						i++
+						break
+					}
+				}
+				i++
+			}
+			rest = strings.TrimSpace(rest[i:])
+			j := 0
+			if strings.HasPrefix(rest, "(") {
+				d = 0
+				for j < len(rest) {
+					if rest[j] == '(' {
+						d++
+					} else if rest[j] == ')' {
+						d--
+						if d == 0 {
+							j++
+							break
+						}
+					}
+					j++
+				}
+			} else {
+				for j < len(rest) && rest[j] != ' ' && rest[j] != ')' {
+					j++
+				}
+			}
+			c.symSorts[m[2]] = Sort(rest[:j])
+		}
+	}
+	so, ok := c.symSorts[name]
+	return so, ok
+}
+
+func stripComment(s string) string {
+	if i := strings.Index(s, ";"); i >= 0 {
+		return s[:i]
+	}
+	return s
+}
+
+var intLitRe = regexp.MustCompile(`^[0-9]+$`)
+
+// sortOfGround infers the sort of a ground term given as text (enough of
+// SMT-LIB for the terms the engine builds; false when unsure).
+func (c *Ctx) sortOfGround(text string) (Sort, bool) {
+	text = strings.TrimSpace(text)
+	if !strings.HasPrefix(text, "(") {
+		if intLitRe.MatchString(text) {
+			return SInt, true
+		}
+		if text == "true" || text == "false" {
+			return SBool, true
+		}
+		return c.symSort(text)
+	}
+	// split head and arguments
+	inner := text[1 : len(text)-1]
+	var parts []string
+	d, start := 0, -1
+	for i := 0; i <= len(inner); i++ {
+		if i == len(inner) || (d == 0 && (inner[i] == ' ' || inner[i] == '\n')) {
+			if start >= 0 {
+				parts = append(parts, inner[start:i])
+				start = -1
+			}
+			continue
+		}
+		if start < 0 {
+			start = i
+		}
+		if inner[i] == '(' {
+			d++
+		} else if inner[i] == ')' {
+			d--
+		}
+	}
+	if len(parts) == 0 {
+		return "", false
+	}
+	switch parts[0] {
+	case "+", "-", "*", "div", "mod", "abs":
+		return SInt, true
+	case "and", "or", "not", "=>", "=", "<", "<=", ">", ">=", "distinct":
+		return SBool, true
+	case "ite":
+		if len(parts) == 4 {
+			if so, ok := c.sortOfGround(parts[2]); ok {
+				return so, true
+			}
+			return c.sortOfGround(parts[3])
+		}
+	case "store":
+		if len(parts) == 4 {
+			return c.sortOfGround(parts[1])
+		}
+	case "select":
+		if len(parts) == 3 {
+			if so, ok := c.sortOfGround(parts[1]); ok {
+				str := string(so)
+				if strings.HasPrefix(str, "(Array Int ") && strings.HasSuffix(str, ")") {
+					return Sort(str[len("(Array Int ") : len(str)-1]), true
+				}
+			}
+		}
+	default:
+		return c.symSort(parts[0])
+	}
+	return "", false
 }
 
 // assertDef emits a definitional axiom about a fresh symbol; queries include
